@@ -13,7 +13,7 @@ func TestSig(t *testing.T) {
 		t.Skip()
 	}
 	setZone(3)
-	spec := CaseSpec{Prop: os.Getenv("VSIM_PROP"), Tier: "quick", Seed: envU64("VSIM_SIGSEED", 1)}
+	spec := CaseSpec{Prop: os.Getenv("VSIM_PROP"), Tier: envStr("VSIM_TIER", "quick"), Seed: envU64("VSIM_SIGSEED", 1)}
 	if v := os.Getenv("VSIM_SIGENUM"); v != "" {
 		var e EnumSpec
 		fmt.Sscanf(v, "%d,%d,%d,%d,%d,%d", &e.Kind, &e.At, &e.Pacing, &e.When, &e.Stall, &e.Code)
@@ -29,8 +29,16 @@ func TestSig(t *testing.T) {
 	for _, l := range observedLines(res) {
 		fmt.Println(l)
 	}
+	fmt.Println("trace-hash:", traceHash(res))
 	fmt.Println("violations:", res.Violations)
 	for _, a := range res.Runs[0].Results {
 		fmt.Printf("plan: stop=%v errcode=%d at=%d causes=%v\n", a.Plan.Stop, a.Plan.Stream.ErrCode, a.Plan.Stream.AtPacket, a.Causes)
 	}
+}
+
+func envStr(name, def string) string {
+	if v := os.Getenv(name); v != "" {
+		return v
+	}
+	return def
 }
